@@ -11,6 +11,8 @@ namespace rkverif {
 
 namespace rkcommon {
   namespace array3D {
+    template struct Array3D<float>;          // getValueRange
+    template struct Array3D<unsigned char>;
     template struct ActualArray3D<float>;
     template struct ActualArray3D<unsigned char>;
     template struct IndexShiftedArray3D<float>;
